@@ -337,6 +337,33 @@ func checkRel(c relCase) (o pbt.Outcome, err error) {
 		if e := relation("reverse-complement", rows, vopt, 1, nil, c.Threads[4]); e != nil {
 			return o, e
 		}
+		if c.ViaAPI {
+			// history on ONE alignment object: matrix, ReverseComplement() in place, matrix again
+			obj := gen.MustBuild(distrun.Ali(c.Rows))
+			m0, e := distrun.Matrix(obj, opt, false, c.Threads[0])
+			if e != nil {
+				return o, fmt.Errorf("DistMatrix fails: %v", e)
+			}
+			if ok, why := bitwiseEqual(base, m0); !ok {
+				return o, fmt.Errorf("another object with the same content gives another matrix: %s", why)
+			}
+			if e := obj.ReverseComplement(); e != nil {
+				return o, fmt.Errorf("ReverseComplement: %v", e)
+			}
+			if !sameStrings(rowsOf(obj), rows) {
+				return o, fmt.Errorf("harness: ReverseComplement in place does not give the expected rows")
+			}
+			m1, e := distrun.Matrix(obj, vopt, false, c.Threads[4])
+			if e != nil {
+				return o, fmt.Errorf("DistMatrix fails after the in-place reverse complement: %v", e)
+			}
+			ill, e := related(base, m1, 1, nil, st, clean, extra)
+			o.Ill += ill
+			if e != nil {
+				return o, fmt.Errorf("reverse-complement in place on the object whose matrix was just computed: %v", e)
+			}
+			o.Class("relation:reverse-complement in place (same object)")
+		}
 	} else {
 		o.Class("internal-gap-mode(column relations exempt)")
 	}
